@@ -58,6 +58,7 @@ type clientStreamProcessorMPEGTS struct {
 	leadingTrackFound  bool
 	dateTimeProcessed  bool
 	clientStreamTracks []*clientTrack
+	pendingSamples     []func() error
 
 	chTrackProcessorDone chan struct{}
 }
@@ -195,7 +196,11 @@ func (p *clientStreamProcessorMPEGTS) initializeReader(ctx context.Context, firs
 		isLeadingTrack := (i == leadingTrackID)
 		var trackProc *clientTrackProcessorMPEGTS
 
-		processSample := func(rawPTS int64, rawDTS int64, data [][]byte) error {
+		var processSample func(rawPTS int64, rawDTS int64, data [][]byte) error
+
+		processSample = func(rawPTS int64, rawDTS int64, data [][]byte) error {
+			var pendingSamples []func() error
+
 			if isLeadingTrack {
 				p.leadingTrackFound = true
 
@@ -204,14 +209,23 @@ func (p *clientStreamProcessorMPEGTS) initializeReader(ctx context.Context, firs
 					if err != nil {
 						return err
 					}
+
+					pendingSamples = p.pendingSamples
+					p.pendingSamples = nil
 				}
 			}
 
 			if trackProc == nil {
 				trackProc = p.trackProcessors[track.track]
 
-				// wait leading track before proceeding
+				// wait leading track before proceeding.
+				// a PES packet is complete only when the following one begins, therefore
+				// samples of other tracks may arrive before the first sample of the leading
+				// track even if they come later in time: keep them.
 				if trackProc == nil {
+					p.pendingSamples = append(p.pendingSamples, func() error {
+						return processSample(rawPTS, rawDTS, data)
+					})
 					return nil
 				}
 			}
@@ -230,12 +244,26 @@ func (p *clientStreamProcessorMPEGTS) initializeReader(ctx context.Context, firs
 
 			ntp := leadingTimeConvMPEGTS(p.client).getNTP(ctx, dts)
 
-			return trackProc.push(ctx, &procEntryMPEGTS{
+			err := trackProc.push(ctx, &procEntryMPEGTS{
 				pts:  pts,
 				dts:  dts,
 				ntp:  ntp,
 				data: data,
 			})
+			if err != nil {
+				return err
+			}
+
+			// process samples of other tracks that were received
+			// before the first sample of the leading track
+			for _, cb := range pendingSamples {
+				err = cb()
+				if err != nil {
+					return err
+				}
+			}
+
+			return nil
 		}
 
 		switch track.track.Codec.(type) {
